@@ -26,6 +26,8 @@ class FloatOps (F : Type) where
   div : F → F → F
   neg : F → F
   abs : F → F
+  /-- `x + 0.0` (the identity except that `-0.0 + 0.0` is `0.0`) -/
+  addZero : F → F
   isNaN : F → Bool
   /-- `sys.float_info.max` -/
   maxFinite : F
@@ -132,6 +134,7 @@ instance : FloatOps Rat where
   div := (· / ·)
   neg := (- ·)
   abs x := if 0 ≤ x then x else -x
+  addZero x := x
   isNaN _ := false
   maxFinite := RatCarrier.big
   ofInt i := if (-RatCarrier.big ≤ (i : Rat) ∧ (i : Rat) ≤ RatCarrier.big) then some (i : Rat) else none
